@@ -126,15 +126,19 @@ def _setup(ctx, cfg, extint=0):
     cr = np.r_[0, np.cumsum(Nr)]
     ct = np.r_[0, np.cumsum(Nt + ([extint] if extint else []))]
 
-    def Hkl(k, l):
-        blk = C.as_cmat(bigH[cr[k]:cr[k + 1], ct[l]:ct[l + 1]])
-        if pl is not None:
-            g = pl[k, l].sqrt()
-            out = np.empty(blk.shape, dtype=object)
-            for idx in np.ndindex(*blk.shape):
-                out[idx] = blk[idx] * g
-            return out
-        return blk
+    def make_Hkl(plm):
+        def Hkl(k, l):
+            blk = C.as_cmat(bigH[cr[k]:cr[k + 1], ct[l]:ct[l + 1]])
+            if plm is not None:
+                g = plm[k, l].sqrt()
+                out = np.empty(blk.shape, dtype=object)
+                for idx in np.ndindex(*blk.shape):
+                    out[idx] = blk[idx] * g
+                return out
+            return blk
+        return Hkl
+    Hkl = make_Hkl(pl)
+    Hkl.make = make_Hkl
     return ch, F, U, nv, Hkl
 
 
@@ -485,14 +489,30 @@ class ExtIntSinr(Harness, _Sizes):
 
     def configs(self, tier):
         s = self.sizes('quick')[0]
-        return [dict(s, pathloss=pl, noise=noise) for pl in (False, True)
-                for noise in ('sym', None)]
+        out = [dict(s, pathloss=pl, noise=noise) for pl in (False, True)
+               for noise in ('sym', None)]
+        # histories: evaluate, change the path loss on the same object,
+        # evaluate again (derived covariances must follow the CURRENT state)
+        out += [dict(s, pathloss=pl, noise='sym', history=h)
+                for pl in (False, True) for h in ('set', 'unset')]
+        return out
 
     def sym(self, ctx, cfg):
         ctx.abs_mode = 'atom'
         ch, F, U, nv, Hkl = _setup(ctx, cfg, extint=1)
         K, Ns = cfg['K'], cfg['Ns']
         pe = ctx.real('pe', lo=0)
+        if cfg.get('history'):
+            ch.calc_SINR(F, U, pe)          # first evaluation (may cache)
+            ch.calc_Q(0, F, pe)
+            if cfg['history'] == 'set':
+                pl2 = sym_array(ctx, 'plB', (K, K), positive=True)
+                ple2 = sym_array(ctx, 'pleB', (K, 1), positive=True)
+                ch.set_pathloss(pl2, ple2)
+                Hkl = Hkl.make(np.hstack([pl2, ple2]))
+            else:
+                ch.set_pathloss(None)
+                Hkl = Hkl.make(None)
         sinr = ch.calc_SINR(F, U, pe)
         nvv = nv if nv is not None else 0
         for k in range(K):
@@ -511,6 +531,24 @@ class ExtIntSinr(Harness, _Sizes):
         ch, F, U, nv, Hkl = ChannelSinr._numeric(self, cfg, rng, extint=1)
         K, Ns = cfg['K'], cfg['Ns']
         pe = rng.uniform(0, 2)
+        if cfg.get('history'):
+            ch.calc_SINR(F, U, pe)
+            ch.calc_Q(0, F, pe)
+            bigH = ch._big_H_no_pathloss
+            Nr, Nt = cfg['Nr'], cfg['Nt']
+            cr = np.r_[0, np.cumsum(Nr)]
+            ct = np.r_[0, np.cumsum(Nt + [1])]
+            if cfg['history'] == 'set':
+                pl2 = np.array([[rng.uniform(0.1, 1) for _ in range(K + 1)]
+                                for _ in range(K)])
+                ch.set_pathloss(pl2[:, :K], pl2[:, K:])
+            else:
+                pl2 = None
+                ch.set_pathloss(None)
+
+            def Hkl(k, l, pl2=pl2):
+                b = bigH[cr[k]:cr[k + 1], ct[l]:ct[l + 1]]
+                return b * np.sqrt(pl2[k, l]) if pl2 is not None else b
         sinr = ch.calc_SINR(F, U, pe)
         bad = []
         for k in range(K):
